@@ -6,6 +6,7 @@ CONSTANTS
   DeepLock = TRUE
   BadSig = 0
   UnlockOnFail = TRUE
+  HotReload = FALSE
   MixinsUpdate = TRUE
 VIEW view
 INVARIANT UsedConsistent
